@@ -535,6 +535,9 @@ SPECS['C18'] = dict(
         twin('mutual', 'harness.c18', 'h_mutual_twin', 'a refused handshake exists'),
         ch('hostile-answer', 'harness.c18', 'h_hostile_answer', 'any reply other than the exact digest is answered #FAILURE# and raises', timeout=(300, 1500), nontrivial_witness=True),
         ch('hostile-verdict', 'harness.c18', 'h_hostile_verdict', 'the answering side completes only on the exact welcome message', timeout=(300, 1500), nontrivial_witness=True),
+        ch('relay', 'harness.c18', 'h_relay', 'the client with two handshakes to one peer under way, the peer WITHOUT the key saying at each step arbitrary bytes or bytes it has seen on the other connection: '
+           'Client() must not come out authenticated on either', timeout=(200, 900)),
+        twin('relay', 'harness.c18', 'h_relay_twin', 'a run in which the client refuses the peer exists'),
         ch('key-type', 'harness.c18', 'h_keytype', 'str / int / bytearray keys raise TypeError before any handshake message', timeout=(120, 600), nontrivial_witness=True),
     ],
 )
